@@ -404,7 +404,7 @@ def stepProduce (s : State) (pw : Nat) (tp : TP) (msgs : List Msg) (out : BrOut)
     | .attempting b k none =>
       match s.batches b with
       | some B =>
-        if B.pw = pw ∧ B.tp = tp ∧ P.tp = tp ∧ B.msgs.map (·.msg) = msgs then some (produced s pw b k P B tp out) else none
+        if B.pw = pw ∧ B.tp = tp ∧ P.tp = tp ∧ B.msgs.map (·.msg) = msgs ∧ out ≠ .rejected 0 then some (produced s pw b k P B tp out) else none
       | none => none
     | _ => none
   | none => none
